@@ -614,7 +614,14 @@ def branch_ownership_ref():
     from contracts import c01
 
     # ... and a second symbolic decision on a sibling path (insufficient funds, say) is asked of a solver that holds that path's conditions only
-    return rewrap(PROP, c02.path_cases(), "fork-owns-its-tables", lambda c: "create_branch" in c.unit or "Path.branch" in c.unit or "Path.activate" in c.unit) + rewrap(PROP, c01.returndata_cases(), "caller-sees-the-return-data")
+    return rewrap(PROP, c02.path_cases(), "fork-owns-its-tables", lambda c: "create_branch" in c.unit or "Path.branch" in c.unit or "Path.activate" in c.unit) + rewrap(PROP, c01.returndata_cases() + [c for c in c01.memory_cases() if c.unit.endswith("#RETURNDATACOPY")], "caller-sees-the-return-data")
+
+
+def grounds():
+    from contracts.common import ground_script
+    from pyvc.pack import Ground
+
+    return [Ground(f"{PROP}/sevm.SEVM.create#create2-edges", ground_script("create2_empty_init_code.py", "CREATE2 with size 0", "CREATE2 with empty init code creates an empty account like CREATE does (no internal exception)"), sources=("halmos.sevm:SEVM.create",)), Ground(f"{PROP}/sevm.SEVM.create#create2-bool-salt", ground_script("create2_bool_salt.py", "CREATE2 whose salt is a comparison result", "CREATE2 with a Bool-typed salt word is executed (every input is covered by a reported path)"), sources=("halmos.sevm:SEVM.create",)), Ground(f"{PROP}/sevm.SEVM.call#hash-precompiles", ground_script("hash_precompiles.py", "CALL to SHA-256 / RIPEMD-160 with 32 and 0 bytes of input, MODEXP", "a call to the SHA-256, RIPEMD-160 or MODEXP precompile succeeds and the caller sees return data of the specified size (the engine does not raise)"), sources=("halmos.sevm:SEVM.call",))]
 
 
 def build_cases(tier="quick"):
